@@ -85,6 +85,7 @@ type Seams struct {
 	Funcs      []string    `json:"funcs"`      // index = function id
 	TickSites  []string    `json:"tick_sites"` // index = tick site id
 	AllocSites int         `json:"alloc_sites"`
+	DeferFirst []int       `json:"defer_first"` // ids of functions whose body starts with a defer statement
 	Files      int         `json:"files_rewritten"`
 	Packages   []string    `json:"packages"`
 }
@@ -349,6 +350,7 @@ func (c *ctx) file(p *packages.Package, f *ast.File) []edit {
 				s.fnStack = append(s.fnStack, name)
 				id := len(c.seams.Funcs)
 				c.seams.Funcs = append(c.seams.Funcs, name)
+				c.noteDeferFirst(id, t.Body)
 				s.afterBrace(t.Body.Lbrace, fmt.Sprintf(" %s.Enter(%d); defer %s.Leave();", simrtName, id, simrtName))
 			}
 		case *ast.FuncLit:
@@ -361,6 +363,7 @@ func (c *ctx) file(p *packages.Package, f *ast.File) []edit {
 			s.fnStack = append(s.fnStack, name)
 			id := len(c.seams.Funcs)
 			c.seams.Funcs = append(c.seams.Funcs, name)
+			c.noteDeferFirst(id, t.Body)
 			s.afterBrace(t.Body.Lbrace, fmt.Sprintf(" %s.Enter(%d); defer %s.Leave();", simrtName, id, simrtName))
 		case *ast.ForStmt:
 			id := len(c.seams.TickSites)
@@ -497,6 +500,17 @@ func (c *ctx) file(p *packages.Package, f *ast.File) []edit {
 	fmt.Fprintf(&tail, "\nvar _ = %s.Enter\n", simrtName)
 	s.add(edit{off: c.off(f.End()), class: 0, extent: 1 << 30, text: tail.String()})
 	return s.edits
+}
+
+// noteDeferFirst records functions whose first statement is a defer: in real Go nothing can panic between the entry of
+// such a function and the registration of that defer, so the entry tick (which the rewrite places before it) must not
+// be a fault point - a clean-up or recover installed first thing in a function is in place before anything can fail.
+func (c *ctx) noteDeferFirst(id int, body *ast.BlockStmt) {
+	if body != nil && len(body.List) > 0 {
+		if _, ok := body.List[0].(*ast.DeferStmt); ok {
+			c.seams.DeferFirst = append(c.seams.DeferFirst, id)
+		}
+	}
 }
 
 func shortQual(p *types.Package) string { return p.Name() }
